@@ -4,7 +4,8 @@
 From Coq Require Import List String Bool Arith.
 Import ListNotations.
 
-Inductive locking := Locked | LockedWhenInMemory | Unlocked | ReleasedEarly | UnknownLocking.
+(* ReadLocked: the method holds the lock in shared (RLock) mode only *)
+Inductive locking := Locked | LockedWhenInMemory | ReadLocked | ReadLockedWhenInMemory | Unlocked | ReleasedEarly | UnknownLocking.
 
 Record lock_fact := mkFact {
   lf_type : string; lf_method : string; lf_locking : locking;
@@ -12,16 +13,20 @@ Record lock_fact := mkFact {
   lf_arg_touched : bool; lf_arg_locked : bool }.     (* guarded state of a same-type argument *)
 
 Definition holds_lock (l : locking) : bool :=
-  match l with Locked | LockedWhenInMemory => true | _ => false end.
+  match l with Locked | LockedWhenInMemory | ReadLocked | ReadLockedWhenInMemory => true | _ => false end.
+Definition shared_mode (l : locking) : bool :=
+  match l with ReadLocked | ReadLockedWhenInMemory => true | _ => false end.
 
 (* a method is well-locked if it touches no guarded state, or does so entirely under the
-   receiver's lock, taking the argument's lock too when it touches the argument's state *)
+   receiver's lock - exclusively if it writes any of it (several holders of a shared lock run
+   at once) -, taking the argument's lock too when it touches the argument's state *)
 Definition well_locked (f : lock_fact) : bool :=
   match lf_locking f with
   | UnknownLocking | ReleasedEarly => false
   | _ =>
       let touches := negb (match lf_reads f, lf_writes f with [], [] => true | _, _ => false end) in
-      (negb touches || holds_lock (lf_locking f)) && (negb (lf_arg_touched f) || lf_arg_locked f)
+      (negb touches || holds_lock (lf_locking f)) && (negb (lf_arg_touched f) || lf_arg_locked f) &&
+      (negb (shared_mode (lf_locking f)) || match lf_writes f with [] => true | _ => false end)
   end.
 
 Definition fact_key (f : lock_fact) : string := lf_type f ++ "." ++ lf_method f.
